@@ -1966,6 +1966,9 @@ class FDE:
                 return self._construct_plain(env[n][1], args, kwargs, env, fi)
             if n in env and isinstance(env[n], tuple) and len(env[n]) == 2 and env[n][0] == 'class':
                 self.effects.append(('instantiate', env[n][1], tuple(args), tuple(sorted(kwargs.items(), key=lambda kv: kv[0]))))
+                if args and not kwargs:
+                    # a class held in a local and called with arguments: named like the same call through an attribute (base = self._dyn_base; base(self))
+                    return Opaque('%s(%s)' % (env[n][1], ', '.join(getattr(a, 'name', repr(a)) for a in args)))
                 return Opaque('instance of ' + env[n][1])
             targets = self.repo.resolve_call(e, fi) if fi is not None else []
             if targets and n not in self.stubs:
